@@ -53,4 +53,128 @@ theorem gen_source_caps (m : ErrMode) (cap ops : Nat) :
 /-- deferred closes: `exx` first, then `out` (the model's closeExx → closeOut) -/
 theorem gen_source_closes : Gen.PipeSrc.Emit.cfg.closes = [[1, 0]] ∧ Gen.PipeSrc.Unfold.cfg.closes = [[1, 0]] := ⟨rfl, rfl⟩
 
+/-! ### the model's control-flow graph is the iteration specification
+
+`pcAct` names the action a control point of `Go/Sources.lean` stands for; the `*_walk` theorems show that the process
+component of the model moves from control point to control point exactly along one iteration of `emitIter` /
+`unfoldIter` (besides the exits a `select` with `ctx.Done` and a send on a closed channel allow), and `*_walk_acts` that
+the actions met on the way are the specification's action list. Together with `emit_iter_gen` / `unfold_iter_gen` this
+closes the chain  Go text → regenerated loop body → per-iteration specification → network model. -/
+
+/-- the action a control point stands for (`eLoop` arms `time.Sleep(frequency)`, which `eSleep` waits for) -/
+def pcAct (P : Fn β ε) : Pc β ε → Option (Act (β ⊕ ε))
+  | .eLoop _ => some (.sleep P.freq)
+  | .eOffer _ v => some (.send 0 (.inl v) .sel)
+  | .eCatch _ e => some (catchAct P.mode e)
+  | .uOffer s => some (.send 0 (.inl s) .sel)
+  | .uCatch _ e => some (catchAct P.mode e)
+  | _ => none
+
+/-- Emit: the successors of the control points of iteration `i` -/
+theorem emit_walk (P : Fn β ε) (p : Src β ε) (i : Nat) :
+    (∀ q ∈ procNext P { p with pc := .eLoop i }, q.pc = .eSleep i (p.now + P.freq)) ∧
+    (∀ w, ∀ q ∈ procNext P { p with pc := .eSleep i w }, q.pc = .eApply i) ∧
+    (∀ q ∈ procNext P { p with pc := .eApply i },
+      q.pc = match P.emitF i with | .ok v => .eOffer i v | .error e => .eCatch i e) ∧
+    (∀ v, ∀ q ∈ procNext P { p with pc := .eOffer i v },
+      q.panicked = true ∨ q.pc = .eLoop (i + 1) ∨ (p.cancelled = true ∧ q.pc = .closeExx)) ∧
+    (∀ e, ∀ q ∈ procNext P { p with pc := .eCatch i e },
+      q.panicked = true ∨ q.pc = afterCatch P (.eCatch i e) ∨ (P.mode = .try_ ∧ p.cancelled = true ∧ q.pc = .closeExx)) := by
+  refine ⟨?_, ?_, ?_, ?_, ?_⟩
+  · intro q hq; simp [procNext] at hq; subst hq; rfl
+  · intro w q hq
+    simp only [procNext] at hq
+    split at hq
+    · simp at hq; subst hq; rfl
+    · simp at hq
+  · intro q hq
+    simp only [procNext] at hq
+    split at hq <;> (simp at hq; subst hq; simp [*])
+  · intro v q hq
+    simp only [procNext, sendOut, doneArm, List.mem_append] at hq
+    rcases hq with hq | hq
+    · split at hq
+      · simp at hq; subst hq; exact Or.inl rfl
+      · split at hq
+        · simp at hq; subst hq; exact Or.inr (Or.inl rfl)
+        · simp at hq
+    · split at hq
+      · simp at hq; subst hq; rename_i hc; exact Or.inr (Or.inr ⟨hc, rfl⟩)
+      · simp at hq
+  · intro e q hq
+    simp only [procNext] at hq
+    cases hm : P.mode <;> simp only [hm, sendExx, doneArm, List.mem_append] at hq
+    · split at hq
+      · simp at hq; subst hq; exact Or.inl rfl
+      · split at hq
+        · simp at hq; subst hq; exact Or.inr (Or.inl (by simp [afterCatch, hm]))
+        · simp at hq
+    · rcases hq with hq | hq
+      · split at hq
+        · simp at hq; subst hq; exact Or.inl rfl
+        · split at hq
+          · simp at hq; subst hq; exact Or.inr (Or.inl (by simp [afterCatch, hm]))
+          · simp at hq
+      · split at hq
+        · simp at hq; subst hq; rename_i hc; exact Or.inr (Or.inr ⟨rfl, hc, rfl⟩)
+        · simp at hq
+
+/-- Emit: the actions along the control points of iteration `i` are `emitIter` -/
+theorem emit_walk_acts (m : ErrMode) (freq : Nat) (f : Nat → β × Option ε) (u : β → β × Option ε) (i : Nat) :
+    [pcAct (fnOfEmit m freq f u) (.eLoop i),
+     pcAct (fnOfEmit m freq f u) (match (fnOfEmit m freq f u).emitF i with | .ok v => .eOffer i v | .error e => .eCatch i e)].filterMap id
+      = (emitIter m freq f i).1 := by
+  simp only [fnOfEmit, DSL.toExcept, emitIter]
+  cases h : (f i).2 <;> simp [pcAct]
+
+/-- Unfold: the successors of the control points of one iteration from `s` -/
+theorem unfold_walk (P : Fn β ε) (p : Src β ε) (s : β) :
+    (∀ q ∈ procNext P { p with pc := .uOffer s },
+      q.panicked = true ∨ q.pc = .uApply s ∨ (p.cancelled = true ∧ q.pc = .closeExx)) ∧
+    (∀ q ∈ procNext P { p with pc := .uApply s },
+      q.pc = match (P.unfoldF s).2 with | none => .uOffer (P.unfoldF s).1 | some e => .uCatch (P.unfoldF s).1 e) ∧
+    (∀ s' e, ∀ q ∈ procNext P { p with pc := .uCatch s' e },
+      q.panicked = true ∨ q.pc = afterCatch P (.uCatch s' e) ∨ (P.mode = .try_ ∧ p.cancelled = true ∧ q.pc = .closeExx)) := by
+  refine ⟨?_, ?_, ?_⟩
+  · intro q hq
+    simp only [procNext, sendOut, doneArm, List.mem_append] at hq
+    rcases hq with hq | hq
+    · split at hq
+      · simp at hq; subst hq; exact Or.inl rfl
+      · split at hq
+        · simp at hq; subst hq; exact Or.inr (Or.inl rfl)
+        · simp at hq
+    · split at hq
+      · simp at hq; subst hq; rename_i hc; exact Or.inr (Or.inr ⟨hc, rfl⟩)
+      · simp at hq
+  · intro q hq
+    simp only [procNext] at hq
+    split at hq <;> (simp at hq; subst hq; simp [*])
+  · intro s' e q hq
+    simp only [procNext] at hq
+    cases hm : P.mode <;> simp only [hm, sendExx, doneArm, List.mem_append] at hq
+    · split at hq
+      · simp at hq; subst hq; exact Or.inl rfl
+      · split at hq
+        · simp at hq; subst hq; exact Or.inr (Or.inl (by simp [afterCatch, hm]))
+        · simp at hq
+    · rcases hq with hq | hq
+      · split at hq
+        · simp at hq; subst hq; exact Or.inl rfl
+        · split at hq
+          · simp at hq; subst hq; exact Or.inr (Or.inl (by simp [afterCatch, hm]))
+          · simp at hq
+      · split at hq
+        · simp at hq; subst hq; rename_i hc; exact Or.inr (Or.inr ⟨rfl, hc, rfl⟩)
+        · simp at hq
+
+/-- Unfold: the actions along the control points of one iteration are `unfoldIter`, and so is the next seed -/
+theorem unfold_walk_acts (m : ErrMode) (freq : Nat) (f : Nat → β × Option ε) (u : β → β × Option ε) (s : β) :
+    ([pcAct (fnOfEmit m freq f u) (.uOffer s),
+      pcAct (fnOfEmit m freq f u) (match (u s).2 with | none => .uApply (u s).1 | some e => .uCatch (u s).1 e)].filterMap id
+      = (unfoldIter m u s).2.1) ∧ (unfoldIter m u s).1 = (u s).1 := by
+  simp only [fnOfEmit, unfoldIter]
+  cases h : (u s).2 <;> simp [pcAct]
+
 end Golem.Props.C11
+
